@@ -163,6 +163,15 @@ theorem mulVec_zero_vec (G : Mat Rat n n) : G.mulVec (Vec.zero : Vec Rat n) = Ve
 
 end ratlemmas
 
+/-- helper: the distribution constructor keeps the requested shape -/
+theorem ctor_shape (ps : List Rat) (shape : List Nat) (eps : Rat) (d : Dist)
+    (h : QM.C16.ctor ps shape eps = .ok d) : d.shape = shape := by
+  unfold QM.C16.ctor at h
+  simp only [bind, Except.bind, pure, Except.pure] at h
+  repeat (split at h <;> try cases h)
+  all_goals (first | rfl | (injection h with h; subst h; rfl))
+
+
 /-- reported shape of a distribution-carrying result (for the labelling witnesses) -/
 def distShape {n : Nat} : Except Err (QOp n) → Option (List Nat × List Rat)
   | .ok (.ensemble _ _ d _) => some (d.shape, d.ps)
